@@ -61,6 +61,7 @@ type c28World struct {
 	sl, wk int
 	keys   [2]*crypto.SigningKeypair
 	now    int64             // wall-clock second fixed at reset: relative timestamps of the whole case count from it
+	skip   bool              // the case has drifted too far from `now`: the remaining ops are not run (see c28Drifted)
 	labels map[string]string // command content (origin,id,ts,signature) -> "<ts token>:<sig token>"
 }
 
@@ -121,9 +122,16 @@ func c28Reset(signing, canSign, asleep bool) string {
 	if canSign { // this agent is an operator's: it holds the private key and signs what it issues
 		cfg.Management.SigningPrivateKey = hex.EncodeToString(w.keys[0].PrivateKey[:])
 	}
-	// TriggerWake floods for max(5 s, 2*PollInterval+PollDuration); keep that at its 5 s floor
-	cfg.Sleep.PollInterval = time.Second
-	cfg.Sleep.PollDuration = 100 * time.Millisecond
+	// The poll timer must not fire during a case (it would show the sleeping agent as POLLING for a moment).
+	// Only an agent on which TriggerWake may be called (it holds the private key) gets a short interval:
+	// TriggerWake floods for max(5 s, 2*PollInterval+PollDuration). A timer-driven poll there has no
+	// callback to run and returns to SLEEPING after 1 ms; POLLING is printed as SLEEPING (see c28Observe).
+	cfg.Sleep.PollInterval = time.Hour
+	cfg.Sleep.PollIntervalJitter = 0
+	cfg.Sleep.PollDuration = time.Millisecond
+	if canSign {
+		cfg.Sleep.PollInterval = time.Second
+	}
 	w.sender = &c28Sender{}
 	a, err := agent.VerifC28New(cfg, w.sender, sleep.Callbacks{
 		OnSleep: func() error { w.sl++; return nil },
@@ -233,7 +241,7 @@ func c28Observe(w *c28World) string {
 			// issued by this agent (TriggerSleep/TriggerWake): the id comes from its clock; describe the frame by what can be checked
 			idTok = "fresh"
 			tl := fmt.Sprintf("?%d", ts)
-			if d := int64(ts) - time.Now().Unix(); d >= -10 && d <= 1 {
+			if d := int64(ts) - time.Now().Unix(); d >= -60 && d <= 1 {
 				tl = "now"
 			}
 			var signable []byte
@@ -274,16 +282,45 @@ func c28Observe(w *c28World) string {
 	if fwd == "" {
 		fwd = "-"
 	}
-	out := fmt.Sprintf("st=%s sl=%d wk=%d fwd=%s", w.a.VerifC28SleepMgr().GetState(), w.sl, w.wk, fwd)
+	st := w.a.VerifC28SleepMgr().GetState()
+	if st == sleep.StatePolling { // a poll-timer tick on a sleeping agent: asleep as far as C28 is concerned
+		st = sleep.StateSleeping
+	}
+	out := fmt.Sprintf("st=%s sl=%d wk=%d fwd=%s", st, w.sl, w.wk, fwd)
 	w.sl, w.wk = 0, 0
 	return out
 }
 
+// c28MaxDrift: relative stamps count from the second the case began, the code compares them with the
+// clock when the frame is processed. Generated stamps stay at least 20 s away from the edge of the
+// 300 s window; a case that has run longer than this (loaded machine, TriggerWake's 5 s) is abandoned:
+// the op and everything after it answer `skipped-drift`, which the model accepts for every op.
+const c28MaxDrift = 12
+
+func c28Drifted(w *c28World) bool {
+	if time.Now().Unix()-w.now > c28MaxDrift {
+		w.skip = true
+	}
+	return w.skip
+}
+
 func c28Run(line string) string {
 	f := fields(line)
-	switch f[0] {
-	case "reset":
+	if f[0] == "reset" {
 		return c28Reset(f[1] != "0", f[1] == "2", f[2] == "1")
+	}
+	if c28Drifted(c28W) {
+		return "skipped-drift"
+	}
+	out := c28RunOp(f)
+	if f[0] != "trig" && c28Drifted(c28W) { // the clock was read somewhere inside the op: its verdict may depend on the delay
+		return "skipped-drift"
+	}
+	return out
+}
+
+func c28RunOp(f []string) string {
+	switch f[0] {
 	case "d":
 		w := c28W
 		from, _ := strconv.Atoi(f[2])
@@ -349,8 +386,8 @@ func c28Gen(w *bufio.Writer, seed int64, tier string) {
 		n = 1500
 	}
 	const win = 300 // DefaultFloodConfig().TimestampWindow in seconds
-	tsToks := []string{"r0", "r0", "r0", "r-1", "r1", "r-60", "r60", fmt.Sprintf("r-%d", win-3), fmt.Sprintf("r%d", win-3),
-		fmt.Sprintf("r-%d", win+3), fmt.Sprintf("r%d", win+3), "r-100000", "r100000", "a0", "a1", "a4611686018427387904",
+	tsToks := []string{"r0", "r0", "r0", "r-1", "r1", "r-60", "r60", fmt.Sprintf("r-%d", win-20), fmt.Sprintf("r%d", win-20),
+		fmt.Sprintf("r-%d", win+20), fmt.Sprintf("r%d", win+20), "r-100000", "r100000", "a0", "a1", "a4611686018427387904",
 		"a9223372036854775807", "a9223372036854775808", "a18446744073709551615", "a9223372036792640000", "a20000000000"}
 	// wrap points of seconds->nanoseconds arithmetic: k*2^64 ns = k*18446744073.7 s, 2^63 ns = 9223372036.85 s
 	for _, k := range []int64{1, -1, 2, -2, 3, -3} {
